@@ -13,7 +13,7 @@
 (* the antecedent of the selected property really held (non-vacuity).      *)
 (* <<"DONE", n>> is printed when the last event has been consumed.         *)
 (***************************************************************************)
-EXTENDS Squitterator, Json, IOUtils, TLC, FiniteSets
+EXTENDS Squitterator, Country, Json, IOUtils, TLC, FiniteSets
 
 Rec == ndJsonDeserialize(IOEnv.TRACE)
 Prop == IOEnv.PROP
@@ -341,6 +341,30 @@ BurstStep(ev) ==
 RECURSIVE HexNum(_, _, _)
 HexNum(s, i, acc) == IF i > Len(s) THEN acc ELSE HexNum(s, i + 1, 16 * acc + HexVal(s[i]))
 RowAddr(row) == IF Len(row) >= 6 /\ \A j \in 1..6 : IsHex(row[j]) THEN HexNum(SubSeq(row, 1, 6), 1, 0) ELSE -1
+\* "DF4:3 DF17:12 " -> << <<4, 3>>, <<17, 12>> >> ; malformed -> << <<-1, -1>> >>
+RECURSIVE ReadInt(_, _, _)
+ReadInt(s, i, acc) == IF i <= Len(s) /\ IsDigit(s[i]) THEN ReadInt(s, i + 1, 10 * acc + (s[i] - 48)) ELSE <<acc, i>>
+RECURSIVE ParseCountsR(_, _, _)
+ParseCountsR(s, i, acc) ==
+  IF i > Len(s) THEN acc
+  ELSE IF s[i] = 32 THEN ParseCountsR(s, i + 1, acc)
+  ELSE IF i + 2 <= Len(s) /\ s[i] = 68 /\ s[i + 1] = 70 /\ IsDigit(s[i + 2]) THEN
+       LET d == ReadInt(s, i + 2, 0) IN
+       IF d[2] + 1 <= Len(s) /\ s[d[2]] = 58 /\ IsDigit(s[d[2] + 1]) THEN
+            LET c == ReadInt(s, d[2] + 1, 0) IN ParseCountsR(s, c[2], Append(acc, <<d[1], c[1]>>))
+       ELSE << <<-1, -1>> >>
+  ELSE << <<-1, -1>> >>
+ParseCounts(s) == ParseCountsR(s, 1, <<>>)
+
+\* expected counter line: applied frames per DF, ascending DF
+ExpectedCounts(dfs) ==   \* dfs: sequence of DF numbers of the applied frames
+  LET S == ToSet(dfs)
+      RECURSIVE Asc(_, _)
+      Asc(T, acc) == IF T = {} THEN acc
+                     ELSE LET m == CHOOSE x \in T : \A y \in T : x <= y
+                          IN  Asc(T \ {m}, Append(acc, <<m, Cardinality({j \in 1..Len(dfs) : dfs[j] = m})>>))
+  IN  Asc(S, <<>>)
+
 CliStep(ev) ==
   LET n    == Len(ev.lines)
       lis  == [k \in 1..n |-> LineInfo(ev.lines[k])]
@@ -348,9 +372,38 @@ CliStep(ev) ==
       addrs == {lis[ai[j]].a : j \in 1..Len(ai)}
       shown == IF ev.last = <<>> THEN {} ELSE {RowAddr(ev.last[1].rows[j]) : j \in 1..Len(ev.last[1].rows)}
       observable == ev.quiet = FALSE /\ ev.args.d >= 60 /\ ev.args.u < 0
+      wild == Wild(lis, ev.args.f)
+      dfs  == [j \in 1..Len(ai) |-> lis[ai[j]].df]
+      cnt  == IF ev.last = <<>> \/ ev.last[1].counts = <<>> THEN <<>> ELSE ParseCounts(ev.last[1].counts[1])
   IN  /\ Chk("C01", "cli.exit", ev.code = 0 /\ ~ev.timeout, ev, ev.profile)
-      /\ Chk("C01", "cli.processed", (observable /\ ev.code = 0 /\ ~Wild(lis, ev.args.f)) => addrs \subseteq shown, ev, ev.profile)
+      /\ Chk("C01", "cli.processed", (observable /\ ev.code = 0 /\ ~wild) => addrs \subseteq shown, ev, ev.profile)
       /\ Mark("C01", TRUE, ev)
+      \* C16: only frames of the listed formats are applied; the counter line is exact
+      /\ Chk("C16", "filter.table", (observable /\ ev.code = 0 /\ ~wild) => shown = addrs, ev, "table")
+      /\ Chk("C16", "counters", (observable /\ ev.code = 0 /\ ~wild /\ ev.args.c /\ Len(ai) > 0) => cnt = ExpectedCounts(dfs), ev,
+             IF cnt # <<>> /\ cnt[1][1] # -1 /\ Len(cnt) = Len(ExpectedCounts(dfs))
+                /\ \A j \in 1..Len(cnt) : cnt[j][1] = ExpectedCounts(dfs)[j][1] /\ cnt[j][2] = ExpectedCounts(dfs)[j][2] + 1
+             THEN "plus.one" ELSE "count")
+      /\ Chk("C16", "no.counters", (observable /\ ev.code = 0 /\ ~ev.args.c) => cnt = <<>>, ev, "no -c")
+      /\ Mark("C16", observable /\ ~wild /\ Len(ai) > 0, ev)
+
+
+(***************************** C17 country *********************************)
+\* ev.runs: run-length encoding of row.reg over all 2^24 addresses
+CountryStep(ev) ==
+  LET runs == ev.runs
+      n == Len(runs)
+      inB(a) == {i \in 1..NBlocks : Blocks[i].lo <= a /\ a <= Blocks[i].hi}
+      RunOK(r) ==
+        LET bs == inB(r.lo) IN
+        IF bs # {} THEN LET b == Blocks[CHOOSE i \in bs : TRUE] IN b.sure => (r.hi <= b.hi /\ r.reg = b.code)
+        ELSE (\A i \in 1..NBlocks : Blocks[i].sure => (Blocks[i].hi < r.lo \/ Blocks[i].lo > r.hi)) /\ r.reg = "??"
+      bad == {j \in 1..n : ~RunOK(runs[j])}
+  IN  /\ Chk("C17", "partition", n >= 1 /\ runs[1].lo = 0 /\ runs[n].hi = 16777215
+                                  /\ \A j \in 1..(n - 1) : runs[j + 1].lo = runs[j].hi + 1, ev, "rle")
+      /\ \A j \in bad : Viol("C17", "allocation", [i |-> runs[j].lo], runs[j].reg)
+      /\ Mark("C17", TRUE, ev)
+      /\ PrintT(<<"STAT", "C17", n, Cardinality(bad), Cardinality({i \in 1..NBlocks : Blocks[i].sure})>>)
 
 (***************************** events **************************************)
 RunStep(ev) ==
@@ -420,6 +473,7 @@ Step(ev) ==
   ELSE IF ev.e = "tick" THEN TickStep(ev)
   ELSE IF ev.e = "save" THEN SaveStep(ev)
   ELSE IF ev.e = "restore" THEN RestoreStep(ev)
+  ELSE IF ev.e = "country" THEN (IF CountryStep(ev) THEN st ELSE st)
   ELSE IF ev.e = "cli" THEN (IF CliStep(ev) THEN st ELSE st)
   ELSE IF ev.e = "icaosweep" THEN (IF IcaoSweepStep(ev) THEN st ELSE st)
   ELSE IF ev.e = "burst" THEN (IF BurstStep(ev) THEN st ELSE st)
